@@ -15,12 +15,14 @@ import traceback
 VERIF = os.path.dirname(os.path.dirname(os.path.abspath(__file__)))
 LEAN = os.path.join(VERIF, "lean")
 DRIVER = os.path.join(LEAN, ".lake", "build", "bin", "pmdriver")
-EVIDENCE = os.path.join(VERIF, "evidence")
-REPLAYS = os.path.join(VERIF, "replays")
+OUT = os.environ.get("VERIF_OUT", VERIF)          # where evidence/ and replays/ go (overridden only by tools/seeded.py)
+EVIDENCE = os.path.join(OUT, "evidence")
+REPLAYS = os.path.join(OUT, "replays")
 ALLOWED_AXIOMS = {"propext", "Classical.choice", "Quot.sound"}
 FORBIDDEN = re.compile(r"\bsorry\b|\badmit\b|^\s*axiom\s|native_decide|bv_decide|implemented_by|\bunsafe\s|maxHeartbeats 0")
 
-sys.path.insert(0, "/repo")
+REPO = os.environ.get("VERIF_REPO", "/repo")   # the tree under check (overridden only by tools/seeded.py --worktree)
+sys.path.insert(0, REPO)
 os.environ.setdefault("PROSEMIRROR_PY_VERIF", "1")
 
 
@@ -251,6 +253,7 @@ class Ctx:
         replay["property"] = self.prop
         replay["kind"] = kind
         replay["what"] = what
+        replay["run"] = {"tier": self.tier, "seed": self.seed}
         for f in self.findings:
             if f.get("property") == self.prop and f.get("status") == "open" and finding_matches(f, replay):
                 if f["id"] not in [k[0] for k in self.known]:
@@ -295,6 +298,7 @@ class Ctx:
                            "counts": {k: v for k, v in self.counters.items() if k.startswith("mismatch:")}})
         if broken and not self.violations:
             path = write_replay(self.prop, {"property": self.prop, "kind": "obligation-broken",
+                                            "run": {"tier": self.tier, "seed": self.seed},
                                             "what": "a proof obligation or the model/implementation correspondence "
                                                     "no longer checks and the failing-input search found no witness",
                                             "broken": broken})
